@@ -658,7 +658,10 @@ func (s *DiscoveryServer) getResourceTypes(req *http.Request) []string {
 func (s *DiscoveryServer) getConfigDumpByResourceType(conn *Connection, req *model.PushRequest, ts []string) map[string][]*discoveryv3.Resource {
 	dumps := make(map[string][]*discoveryv3.Resource)
 	if req == nil {
-		req = &model.PushRequest{Push: conn.proxy.LastPushContext, Start: time.Now(), Forced: true}
+		// As in processRequest: LastPushTime (rather than time.Now()) must accompany LastPushContext. The
+		// generators write to the shared XDS cache; with Now() and a push context older than the global one
+		// (a push to this proxy is still pending) stale entries would pass the cache's token check.
+		req = &model.PushRequest{Push: conn.proxy.LastPushContext, Start: conn.proxy.LastPushTime, Forced: true}
 	}
 
 	for _, resourceType := range ts {
@@ -738,7 +741,8 @@ func (s *DiscoveryServer) getConfigDumpByResourceType(conn *Connection, req *mod
 // connectionConfigDump converts the connection internal state into an Envoy Admin API config dump proto
 // It is used in debugging to create a consistent object for comparison between Envoy and Pilot outputs
 func (s *DiscoveryServer) connectionConfigDump(conn *Connection, includeEds bool) (*admin.ConfigDump, error) {
-	req := &model.PushRequest{Push: conn.proxy.LastPushContext, Start: time.Now(), Forced: true}
+	// See getConfigDumpByResourceType: Start must be the time of the push that delivered LastPushContext.
+	req := &model.PushRequest{Push: conn.proxy.LastPushContext, Start: conn.proxy.LastPushTime, Forced: true}
 	version := req.Push.PushVersion
 
 	dump := s.getConfigDumpByResourceType(conn, req, []string{
